@@ -9,7 +9,7 @@ from .. import AnalysisError
 from ..ctx import ALIGN_FUNCS
 from ..paths import PARAM, U, describe_path, is_S, strip_tags, walk_shared
 from ..report import Finding, RuleResult
-from .common import calls_in, is_param, kwarg, step_exprs
+from .common import calls_in, expand_in_context, is_param, kwarg, step_exprs
 
 CONSTRUCTORS = {
     "numpoly.construct.polynomial.polynomial": ("poly_like", "names", "dtype"),
@@ -119,6 +119,25 @@ def _names_base(node):
     return None
 
 
+def _fixed_operand_names(storage_base, names):
+    """Text of the collection C if the storage belongs to an arbitrary element of C (Σelem(C)) while the names
+    are those of C[k] for a constant k, and C is not the result of an alignment; else None."""
+    name_base = _names_base(names)
+    if name_base is None:
+        return None
+    x = _peel(storage_base)
+    if not is_S(x, "elem"):
+        return None
+    coll = x.args[0]
+    y = name_base
+    while isinstance(y, ast.Attribute) and y.attr in ("T",):
+        y = y.value
+    if isinstance(y, ast.Subscript) and isinstance(y.slice, ast.Constant) and isinstance(y.slice.value, int):
+        if _txt(y.value) == _txt(coll) and not _is_align_call(coll) and "align_" not in _txt(coll)[:60]:
+            return _txt(coll)
+    return None
+
+
 def _same_source(ctx, module, exp_base, names):
     """True: names come from the polynomial the exponent rows come from (or from an operand / a sibling of
     the alignment that produced it); False: exponent rows of an alignment result, names of a polynomial
@@ -175,7 +194,7 @@ def run_names(ctx) -> RuleResult:
                             continue
                         seen.add(ckey)
                         params = CONSTRUCTORS[cname]
-                        expanded = step.expand(call)
+                        expanded = expand_in_context(step, raw, call)
                         base = None
                         why = ""
                         if params[0] == "poly_like":
@@ -202,6 +221,17 @@ def run_names(ctx) -> RuleResult:
                             ok = from_names or explicit or bool(_roots(names))
                         ident = f"{module.name}.{qual}: {cname.split('.')[-1]}({why} of {_txt(base)[:40]}) gets names"
                         result.ob(ident, ok, module.loc(step.orig), detail)
+                        if ok and why == "raw structured storage":
+                            fixed = _fixed_operand_names(base, names)
+                            if fixed is not None:
+                                result.ob(f"{module.name}.{qual}: every operand's storage is re-wrapped with that operand's names",
+                                          False, module.loc(step.orig), detail[:80])
+                                result.add(Finding(
+                                    "R-NAMES", module, qual, call,
+                                    f"{cname.split('.')[-1]} re-wraps the storage of each element of '{fixed[:50]}' with the names of "
+                                    f"one fixed element of that collection ({detail[:70]}): the operands are not aligned, so an "
+                                    f"operand with other indeterminates is silently renamed",
+                                    derivation=describe_path(path), construct="storage of every operand, names of one"))
                         if ok and why == "exponent rows":
                             verdict = _same_source(ctx, module, base, names)
                             if verdict is not None:
@@ -280,6 +310,19 @@ def run_getitem(ctx) -> RuleResult:
                 result.add(Finding("R-GETITEM", module, "ndpoly.__getitem__", last.node,
                                    f"{label}= is {_txt(expr) if expr is not None else 'missing'}, expected self.{attr}",
                                    construct=f"__getitem__ {label}"))
+        # an element is cleaned like any other result: the all-zero terms of the other elements are not pinned
+        for flag in ("retain_coefficients", "retain_names"):
+            pinned = kwarg(value, flag)
+            bad = isinstance(pinned, ast.Constant) and pinned.value is True and flag == "retain_coefficients"
+            if pinned is not None:
+                result.ob(f"__getitem__: {flag} is not pinned to True", not bad, module.loc(last.orig), _txt(pinned))
+            if bad:
+                result.add(Finding(
+                    "R-GETITEM", module, "ndpoly.__getitem__", last.node,
+                    "__getitem__ builds the element with retain_coefficients=True: p[i] then carries every exponent row of "
+                    "the whole array with zero coefficients, so an indeterminate obtained by indexing (variable(3)[1]) is "
+                    "no longer a single monomial for derivative(), isconstant() and the other structure queries",
+                    construct="__getitem__ retain_coefficients"))
     result.floor = 3
     return result
 
@@ -708,4 +751,84 @@ def run_expdtype(ctx) -> RuleResult:
     if n < 3:
         raise AnalysisError(f"R-EXPDTYPE: only {n} exponent array creations found")
     result.floor = 3
+    return result
+
+
+TERM_ATTRS = {"keys", "exponents", "coefficients"}
+
+
+def _term_reordering(expr):
+    """(polynomial text, attribute, reordering ops) of a term-axis sequence ``X.keys[order]`` /
+    ``reversed(X.exponents)`` / ``X.coefficients``; None if expr is no such sequence."""
+    ops = []
+    node = expr
+    for _ in range(8):
+        if isinstance(node, ast.Attribute) and node.attr in TERM_ATTRS:
+            return _txt(node.value), node.attr, ops
+        if isinstance(node, ast.Subscript):
+            sl = node.slice
+            full = isinstance(sl, ast.Slice) and sl.lower is None and sl.upper is None and sl.step is None
+            if isinstance(sl, ast.Tuple):
+                # [rows, cols]: only the row part reorders terms
+                sl = sl.elts[0]
+                full = isinstance(sl, ast.Slice) and sl.lower is None and sl.upper is None and sl.step is None
+            if not full:
+                ops.append("[" + _txt(sl) + "]")
+            node = node.value
+        elif isinstance(node, ast.Call) and isinstance(node.func, ast.Name) and node.func.id in ("reversed", "sorted") and node.args:
+            ops.append(node.func.id)
+            node = node.args[0]
+        elif isinstance(node, ast.Call) and isinstance(node.func, ast.Name) and node.func.id in ("list", "tuple", "iter") and node.args:
+            node = node.args[0]
+        elif isinstance(node, ast.Call) and isinstance(node.func, ast.Attribute) and node.func.attr in ("copy", "tolist", "astype"):
+            node = node.func.value
+        elif isinstance(node, ast.Call) and not is_S(node) and isinstance(node.func, ast.Attribute) \
+                and node.func.attr in ("asarray", "array") and node.args:
+            node = node.args[0]
+        else:
+            return None
+    return None
+
+
+def run_termzip(ctx) -> RuleResult:
+    result = RuleResult(
+        "R-TERMZIP",
+        "zip(...) over two term-axis sequences of ONE polynomial (.keys / .exponents / .coefficients) applies the same "
+        "re-ordering (index, slice, reversal, sort) to both: a key paired with the exponent row or coefficient of another term "
+        "denotes a different polynomial",
+    )
+    n = 0
+    for module, qual, func in ctx.repo.analysed_functions():
+        if module.is_pyx or "zip(" not in ast.unparse(func):
+            continue
+        seen = set()
+        for path in ctx.paths_auto(module, func):
+            for step in path:
+                for raw in step_exprs(step):
+                    for call in calls_in(raw):
+                        if not (isinstance(call.func, ast.Name) and call.func.id == "zip") or (id(call), id(step.vars)) in seen:
+                            continue
+                        seen.add((id(call), id(step.vars)))
+                        expanded = step.expand(call)
+                        seqs = [(_term_reordering(arg), arg) for arg in expanded.args if not isinstance(arg, ast.Starred)]
+                        seqs = [(info, arg) for info, arg in seqs if info is not None]
+                        for i in range(len(seqs)):
+                            for j in range(i + 1, len(seqs)):
+                                (p1, a1, o1), (p2, a2, o2) = seqs[i][0], seqs[j][0]
+                                if p1 != p2 or a1 == a2:
+                                    continue
+                                n += 1
+                                ok = o1 == o2
+                                result.ob(f"{module.name}.{qual}: zip pairs .{a1} and .{a2} of one polynomial term by term", ok,
+                                          module.loc(step.orig), f"{o1} / {o2}")
+                                if not ok:
+                                    result.add(Finding(
+                                        "R-TERMZIP", module, qual, call,
+                                        f"zip pairs '{_txt(seqs[i][1])[:60]}' with '{_txt(seqs[j][1])[:60]}': the two sequences of "
+                                        f"the same polynomial are not in the same term order ({o1 or 'storage order'} vs "
+                                        f"{o2 or 'storage order'}), so each key / exponent row meets the coefficient or exponent "
+                                        f"of another term", derivation=describe_path(path),
+                                        construct=f"{qual}: zip over differently ordered term sequences"))
+    result.info["zip_sites"] = n
+    result.floor = 5
     return result
